@@ -3,10 +3,26 @@ import XModel.Sched2
 import XModel.ManagerC18
 import XModel.ManagerC18Fn
 import XModel.ManagerC18Multi
+import XModel.KnobFaultWitness
 import XProofs.Properties.C01
 /-!
 # C18 — a failure in the middle of an update is reported and fully recoverable
 Model: `XModel/Manager.lean` with fault injection (`faultIn`: the k-th container write raises).
+
+**Which tree.**  The model transcribes `/repo` as it stands now (the pinned commit plus the `fix:` commits of
+`/verif/KNOWN_FINDINGS.json`); the index invariant `MInv` these theorems assume rests on the repaired `unregister`.
+
+**What is proved and what is NOT.**  The first three clauses (the exception reaches the caller, definitions and indices are
+unchanged, exactly a prefix of the schedule has run) hold for every kind of task (`C18_prefix`,
+`C18_graph_untouched_while_running`, `C18_definitions_committed`, `C02_failing_call_runs_a_prefix`).  The RECOVERY
+clause — repeating the assignment once the fault is gone re-establishes every dependant — is proved for managers whose
+tasks are expression and function tasks (`C18_recover*`; the hypotheses `Scope` / `ScopeF` require every task of the
+manager to be one of these, so a single linear knob anywhere in the manager puts the state outside them, and the
+conclusion `ConsistentF` does not speak about knob targets at all), for a plain value assigned to a location without a
+definition, assuming the repeat completes.  **For linear knobs the recovery clause is FALSE, of the model and of the
+code alike** (`C18_knob_recovery_fails` below; known finding D34): `LinearKnob.run` adds `w_i * (value - prev_value)` to
+each target in turn and remembers the new value only after the last one, so a fault between two targets makes the
+repeat add the increment to the earlier targets a second time.  In that sense all `C18_recover*` theorems are `_partial`.
 -/
 namespace Properties.C18
 open Store Push Index Manager
@@ -130,5 +146,20 @@ example : get failed.store dc = .ok (.int 7) ∧ get failed.store de = .ok (.int
 example : (setValue id { failed with faultIn := none } da (.int 5)).2 = none ∧
     get (setValue id { failed with faultIn := none } da (.int 5)).1.store de = .ok (.int 35) := ⟨rfl, rfl⟩
 end example_
+
+
+/-! ### the recovery clause fails for linear knobs (known finding D34) -/
+
+/-- **witness**: `d = {x: 1, a: 10, b: 20}`, knob `#K` on `d.x` with weights `[2, -1]` and targets `d.a`, `d.b` (it
+    prescribes `a = 8 + 2x`, `b = 21 - x`); `d.x := 5` with the write of `d.b` raising, then — the fault gone —
+    `d.x := 5` again, which completes: `d.a = 26`, where the knob prescribes `18` (`d.b = 16` is right).  The real code
+    gives the same numbers on the same history. -/
+theorem C18_knob_recovery_fails :
+    Manager.KnobFaultWitness.attempt.2.isSome = true ∧ Manager.KnobFaultWitness.repeated.2 = none ∧
+    get Manager.KnobFaultWitness.t3.store (Manager.MixedExample.d "a") = .ok (.int 26) ∧
+    get Manager.KnobFaultWitness.t3.store (Manager.MixedExample.d "b") = .ok (.int 16) ∧
+    get (setValue id Manager.KnobFaultWitness.t0 (Manager.MixedExample.d "x") (.int 5)).1.store (Manager.MixedExample.d "a")
+      = .ok (.int 18) :=
+  ⟨rfl, rfl, rfl, rfl, rfl⟩
 
 end Properties.C18
